@@ -60,6 +60,18 @@ CLAIMED["C19"] = dict(
     ref="DESIGN.md section 2 (C19)",
     technique="TLA+ specs + TLC: exhaustive exploration of screen command streams with per-byte spec->code comparison; TLC trace validation of recorded device-memory runs on all engines")
 
+CLAIMED["C15"] = dict(
+    text="FJDebug.tla puts FJMachine under the debugger (pauses only in front of an op; step, skip N, continue, continue-all, quit, reads of "
+         "words / flip / jump words / bit, hex and byte vectors, no-op commands). For fixed seeded images TLC explores EVERY breakpoint subset x "
+         "EVERY command script of bounded length and checks non-interference as an invariant (the debugged machine equals the undebugged machine "
+         "after the same number of ops at every op boundary), pauses exactly when asked and never missed, reads change nothing; every terminal "
+         "behaviour is replayed into fjm_run.run(breakpoint_handler=...) with the script on stdin and the parsed transcript, outcome, op count, "
+         "fault address and device output are compared for equality.",
+    note="Trusted: FJDebug.tla; the transcript parser (box titles, 'Address 0x..', 'N ops executed', 'memory[..] = v'). Bounded: 4-10 images of <=14 ops "
+         "at w=8/16, <=2 breakpoints, scripts of <=2 (quick) / <=3 (thorough) commands over a 9-14 command alphabet. Label/substring breakpoint resolution is C16's.",
+    ref="DESIGN.md section 2 (C15)",
+    technique="TLA+ spec + TLC exhaustive model checking (non-interference invariant over all scripts and breakpoint sets) + spec->code replay of every behaviour")
+
 NOT_YET = {}
 
 
